@@ -78,7 +78,7 @@ func genInferFiles(r *simrt.Rand, ties bool) (files map[string]string, args []st
 			fmt.Fprintf(&tg, "2021-%02d-%02d \"%s\"\nAssets:Bank %s %s CHF\n\n", r.Range(1, 12), r.Range(1, 28), rc[0], placeholder, rc[1])
 			continue
 		}
-		desc := descPool[r.Intn(len(descPool)-7)]
+		desc := descPool[r.Intn(len(descPool)-10)]
 		if r.P(0.3) {
 			desc = []string{"Qwertz uiop", "Unseen words only", "ZZZ"}[r.Intn(3)]
 		}
@@ -157,8 +157,54 @@ func genInferCase(r *simrt.Rand, c *Case, ties bool) *Case {
 	return c
 }
 
+// genNearTies: three candidates whose scores differ by 8e-10 each (a.b/c for (1001,1008,1229),
+// (991,1019,1230), (986,1025,1231): 820.99918633, 820.99918699, 820.99918765), named so that the
+// order of the names is the reverse of the order of the scores. The best score wins, whatever
+// the order in which the candidates are visited; a comparison "within a tolerance" would not
+// be transitive here.
+func genNearTies(r *simrt.Rand, c *Case) *Case {
+	var tr strings.Builder
+	tr.WriteString("2020-01-01 open Assets:Bank\n\n")
+	names := []string{"Expenses:Books", "Expenses:Food", "Expenses:Gifts"}
+	if r.Bool() {
+		names = []string{"Expenses:Aaa", "Expenses:Mmm", "Expenses:Zzz"}
+	}
+	for i, t := range [][3]int{{1001, 1008, 1229}, {991, 1019, 1230}, {986, 1025, 1231}} {
+		a, b, n := t[0], t[1], t[2]
+		for k := 0; k < n; k++ {
+			w1, w2 := "zzz", "yyy"
+			if k < a {
+				w1 = "alpha"
+			}
+			if k >= n-b {
+				w2 = "beta"
+			}
+			fmt.Fprintf(&tr, "2020-%02d-%02d \"%s %s\"\nAssets:Bank %s %d CHF\n\n", 1+k%12, 1+k%28, w1, w2, names[i], 1000+k%50)
+		}
+	}
+	tg := "2021-03-04 \"alpha beta\"\nAssets:Bank Expenses:TBD 7 CHF\n\n2021-03-05 \"beta alpha\"\nAssets:Bank   Expenses:TBD   7 CHF\n\n"
+	c.Sub = "infer-near-ties"
+	c.Files = map[string]string{"/w/train.knut": tr.String(), "/w/target.knut": tg}
+	c.Cmd = "infer"
+	c.Args = []string{"-t", "/w/train.knut", "/w/target.knut"}
+	c.Note = "Expenses:TBD"
+	c.Today = "2030-01-01"
+	c.Scheds = []Sched{CanonSched()}
+	for i := 0; i < 5; i++ {
+		s := RandSched(r)
+		if s.MapMode == 0 {
+			s.MapMode = 3
+		}
+		c.Scheds = append(c.Scheds, s)
+	}
+	return c
+}
+
 func (c15) Gen(r *simrt.Rand, idx int, tier string) *Case {
 	c := &Case{Sub: "infer"}
+	if idx%400 == 123 {
+		return genNearTies(r, c)
+	}
 	if idx%3 == 2 {
 		c.Sub = "infer-ties"
 	}
@@ -230,6 +276,21 @@ func (c15) Eval(c *Case) (*Violation, bool) {
 			}
 			if oi.Stdout != "" {
 				return &Violation{Signature: "inplace-prints", Msg: "infer --inplace also writes to stdout"}, false
+			}
+			// the same target, already formatted (what a user who runs format first hands to infer):
+			// the same rules, and the same result
+			f2 := copyFiles(c.Files)
+			f2[target] = formatted
+			o2 := Run(c.specFor(s, f2, argv))
+			if !o2.OK() {
+				return &Violation{Signature: "infer-fails", Msg: "infer fails on the formatted target", Detail: o2.Stderr}, false
+			}
+			if v := diffInfer(formatted, o2.Stdout, ph, train); v != nil {
+				v.Signature += ":formatted-target"
+				return v, false
+			}
+			if o2.Stdout != o.Stdout && c.Files["/w/train.knut"] != "" && !strings.Contains(strings.Join(c.Args, " "), target+" ") {
+				return &Violation{Signature: "formatted-target-other-result", Msg: "infer on the formatted target gives another result than on the target as written", Detail: firstDiff(o.Stdout, o2.Stdout)}, false
 			}
 			continue
 		}
